@@ -281,7 +281,28 @@ func genAPI(t *rapid.T) Case {
 		}
 		c.Constrs = append(c.Constrs, mc)
 	}
+	addGadgets(t, &c, n)
 	return c
+}
+
+// addGadgets appends soft unit clauses on which the weight-greedy first model is sub-optimal
+// (one heavy clause against several lighter opposite ones whose total weight is larger), so that
+// the optimum is > 0 and reached after several improvement rounds.
+func addGadgets(t *rapid.T, c *Case, n int) int {
+	sum := 0
+	for g, k := 0, rapid.IntRange(0, 2).Draw(t, "gadgets"); g < k; g++ {
+		l := gen.Lit(t, n, "g")
+		heavy := rapid.IntRange(3, 9).Draw(t, "heavy")
+		c.Constrs = append(c.Constrs, MC{Lits: []int{l}, AtLeast: 1, Weight: heavy})
+		sum += heavy
+		for tot := 0; tot <= heavy; {
+			w := rapid.IntRange(1, heavy-1).Draw(t, "light")
+			c.Constrs = append(c.Constrs, MC{Lits: []int{-l}, AtLeast: 1, Weight: w})
+			tot += w
+			sum += w
+		}
+	}
+	return sum
 }
 
 func genWCNF(t *rapid.T) Case {
@@ -312,6 +333,7 @@ func genWCNF(t *rapid.T) Case {
 		}
 		c.Constrs = append(c.Constrs, mc)
 	}
+	sum += addGadgets(t, &c, used)
 	if withTop {
 		c.Top = sum + 1 + rapid.IntRange(0, 3).Draw(t, "topSlack")
 	}
@@ -327,9 +349,9 @@ func min(a, b int) int {
 
 func init() {
 	vf.Register(
-		vf.Sub[Case]{Name: "api", Quick: 8000, Thorough: 100000, Gen: genAPI, Check: checkAPI, Floor: 0.12,
+		vf.Sub[Case]{Name: "api", Quick: 8000, Thorough: 100000, Gen: genAPI, Check: checkAPI, Floor: 0.25,
 			Rule: "maxsat.New(...).Solve(): 1..10 constraints over <=6 named variables, hard/soft split, weights 1..9; clauses, cardinality constraints (Coeffs nil, degree -1..len+1) and PB constraints with positive coefficients (degree 0..sum+1); each instance built and solved 3 times (map-ordered cost function); oracle = brute force; non-trivial = >=1 hard constraint and >=1 soft constraint violated at the optimum"},
-		vf.Sub[Case]{Name: "wcnf", Quick: 8000, Thorough: 100000, Gen: genWCNF, Check: checkWCNF, Floor: 0.1, Journal: true,
+		vf.Sub[Case]{Name: "wcnf", Quick: 8000, Thorough: 100000, Gen: genWCNF, Check: checkWCNF, Floor: 0.18, Journal: true,
 			Rule: "ParseWCNF of a generated text (declared variables >= highest used, with/without top weight, soft weights < top, empty clauses, duplicate literals), Optimal(nil) and Optimal(chan) each on a fresh solver; oracle = brute force over the declared variables; non-trivial as above"},
 	)
 }
